@@ -360,6 +360,8 @@ type libJob struct {
 	Names   []string `json:"names"`
 	Repeat  int      `json:"repeat"`
 	// Edit, when set, is applied after the first generation: file (relative to Dir) gets Old replaced by New.
+	// WantReuse: after the first generation ask the same Mocker for the same mocks once more (result in Reuse).
+	WantReuse bool `json:"want_reuse,omitempty"`
 	// Writer selects the writer handed to Mock: "" (buffer), "count", or "fail:<n>" (fails after n bytes).
 	Writer   string `json:"writer,omitempty"`
 	// Concurrent > 1: the job is generated by that many goroutines at once, each with its own fresh Mocker and a
@@ -376,6 +378,8 @@ type libResult struct {
 	Outputs []string `json:"outputs"` // one per repetition ("" + Err when failed)
 	Errs    []string `json:"errs"`
 	Panic   string   `json:"panic,omitempty"`
+	Reuse      string `json:"reuse,omitempty"`     // second Mock call on the same Mocker, same names
+	ReuseErr   string `json:"reuse_err,omitempty"`
 	WriteCalls []int `json:"write_calls,omitempty"` // per repetition
 	WriteLens  [][]int `json:"write_lens,omitempty"`
 	AfterEdit string `json:"after_edit,omitempty"`
@@ -397,6 +401,7 @@ func libDriver(jobFile string) int {
 	}
 	results := make([]libResult, len(jobs))
 	var lastWriter *monWriter
+	var reuseOut, reuseErr *string
 	gen := func(j libJob) (out string, errStr string, pan string) {
 		defer func() {
 			if r := recover(); r != nil {
@@ -415,6 +420,14 @@ func libDriver(jobFile string) int {
 		if err := m.Mock(w, j.Names...); err != nil {
 			return w.buf.String(), err.Error(), ""
 		}
+		if reuseOut != nil {
+			// the same Mocker asked for the same mocks once more (a second destination, a retry)
+			var again bytes.Buffer
+			if err := m.Mock(&again, j.Names...); err != nil {
+				*reuseErr = err.Error()
+			}
+			*reuseOut = again.String()
+		}
 		return w.buf.String(), "", ""
 	}
 	for i, j := range jobs {
@@ -427,6 +440,10 @@ func libDriver(jobFile string) int {
 			continue
 		}
 		for r := 0; r < j.Repeat; r++ {
+			reuseOut, reuseErr = nil, nil
+			if r == 0 && j.WantReuse {
+				reuseOut, reuseErr = &results[i].Reuse, &results[i].ReuseErr
+			}
 			o, e, p := gen(j)
 			results[i].Outputs = append(results[i].Outputs, o)
 			results[i].Errs = append(results[i].Errs, e)
@@ -570,7 +587,7 @@ func runC14(prop, tier string) int {
 		fmt.Println(err)
 		return 2
 	}
-	ntrees, P, K := 4, 6, 12
+	ntrees, P, K := 4, 4, 8
 	if tier == "thorough" {
 		ntrees, P, K = 60, 12, 60
 	}
